@@ -808,7 +808,9 @@ class SimNet:
             # a packet the genuine peer *could* have sent (its current send keys, a fresh packet number, the
             # connection ID it currently addresses) whose frames are a protocol violation: fatal error at `side`
             data = self._forged(ep, op)
-            if data is None:
+            if op.get("require_stream") is not None and op["require_stream"] not in ep.conn._streams:
+                outcome = "skipped-precondition"  # the frame would refer to a stream the endpoint has not opened (yet)
+            elif data is None:
                 outcome = "skipped-no-keys"
             else:
                 src = SERVER_ADDR if side == "client" else CLIENT_ADDR
@@ -858,7 +860,10 @@ def _sim_forged(self, victim, op):
     keys = rc.Keys(SUITE_NAME[int(ctx.cipher_suite)], bytes(ctx.secret), int(ctx.version))
     if ptype == "1rtt" and not peer.handshake_complete:
         return None
-    pn = peer.conn._packet_number + 500 + op.get("pn_skip", 0)
+    # the packet takes the peer's next packet number, which is then reserved (written to hooked state) so that the
+    # genuine peer never reuses it: as far as numbering goes the peer has sent one more packet
+    pn = peer.conn._packet_number
+    peer.conn._packet_number = pn + 1
     payload = bytes.fromhex(op["frames_hex"])
     if len(payload) < 3:
         payload += bytes(3 - len(payload))
